@@ -90,6 +90,12 @@ pub fn c02(ctx: &Ctx, rep: &mut Report) {
             ..Case::default()
         }
     }, run_c02);
+    ctx.enumerate(rep, "large-window", LARGE_WINDOW_CASES, 4, large_window_case, |case| {
+        let mut o = run_c02(case);
+        o.classes.push("window-300-to-70000");
+        o.nontrivial = true;
+        o
+    });
     // the other way applications move bytes through a stream: the CopyBidirectional bridge (every TCP entry point of the
     // client and the server's forwarder use it) between a scripted local side and a real peer application
     ctx.prop(rep, "bridged", ctx.tier.pick(30_000, 1_000_000), 300, || with_keepalive(super::bridge::c13_case()), |case| {
@@ -135,6 +141,19 @@ pub fn c03(ctx: &Ctx, rep: &mut Report) {
     ctx.prop(rep, "credit-bridged", ctx.tier.pick(30_000, 1_000_000), 300, || with_keepalive(super::bridge::c13_case()), |case| {
         let mut o = run_c03(case);
         o.classes.push("bridged-end");
+        o
+    });
+    ctx.enumerate(rep, "credit-large-window", LARGE_WINDOW_CASES, 4, large_window_case, |case| {
+        let mut o = run_c03(case);
+        o.classes.push("window-300-to-70000");
+        o.nontrivial = true;
+        o
+    });
+    // ... also when the local side has megabytes ready at once (the bridge coalesces them into very large frames)
+    ctx.enumerate(rep, "credit-bridged-burst", super::bridge::BURST_CASES, 2, super::bridge::burst_case, |case| {
+        let mut o = run_c03(case);
+        o.classes.push("bridged-large-burst");
+        o.nontrivial = true;
         o
     });
 }
@@ -331,6 +350,41 @@ pub fn c04(ctx: &Ctx, rep: &mut Report) {
     let sh = Shape { max_streams: 3, max_wops: 10, allow_empty: true, allow_drop: false, complete: true, small_windows: false, max_sched: 400 };
     ctx.prop(rep, "progress", ctx.tier.pick(50_000, 2_000_000), 200, || stream_workload(sh), run_c04a);
     ctx.prop(rep, "victim", ctx.tier.pick(40_000, 1_500_000), 200, victim_workload, run_c04b);
+    // progress through the bridge (the way every TCP entry point writes into a stream): a local side with data ready - up to
+    // 64 MiB at once - and a peer application that keeps reading must see every byte and the end-of-stream
+    let bridged_progress = |case: &Case| -> Outcome {
+        let run = run_case(case);
+        if !run.quiescent {
+            return inconclusive(&run);
+        }
+        let a = Analysis::new(case, &run);
+        if a.conn_end_at.is_some() {
+            return Outcome::violation("c04-connection-ended", format!("the connection ended although nothing failed: {}", a.ctx(10)));
+        }
+        if let Err((sig, msg)) = a.integrity() {
+            return Outcome::violation(sig, msg);
+        }
+        let b = &case.bridges[0];
+        let bend = b.end as usize;
+        let local_total: usize = b.read.iter().take_while(|x| !matches!(x, LR::PendingForever | LR::Err)).map(|x| if let LR::Chunk(n) = x { (*n).max(1) as usize } else { 0 }).sum();
+        let local_ends = b.read.iter().any(|x| matches!(x, LR::Eof)) && !b.read.iter().any(|x| matches!(x, LR::PendingForever | LR::Err));
+        let peer = &a.streams[0].ends[1 - bend];
+        let reads_to_eof = case.streams[0].ends[1 - bend].r.iter().any(|o| matches!(o, ROp::ToEof(_)));
+        // (a failing local side ends the bridge with an error and aborts the stream: outside "keeps reading / keeps working")
+        let local_failed = run.app_events().any(|(_, e)| matches!(e, AppEv::LocalErr { .. } | AppEv::BridgeDone { result: Err(_), .. }));
+        if reads_to_eof && local_ends && peer.dropped_at.is_none() && !local_failed {
+            if peer.total_read() != local_total {
+                return Outcome::violation("c04-bridged-bytes-missing", format!("the local side produced {local_total} bytes and ended, the peer application keeps reading but only {} bytes became readable; blocked tasks {:?}; tail: {}", peer.total_read(), run.blocked_tasks(), a.ctx(10)));
+            }
+            if peer.eof_at.is_none() {
+                return Outcome::violation("c04-bridged-no-eof", format!("all {local_total} bytes arrived but the end-of-stream of the local side never reached the reading peer; tail: {}", a.ctx(10)));
+            }
+            return Outcome::pass(true, vec!["bridged-progress"]);
+        }
+        Outcome::pass(false, vec!["bridged-other"])
+    };
+    ctx.prop(rep, "progress-bridged", ctx.tier.pick(30_000, 1_000_000), 300, || with_keepalive(super::bridge::c13_case()), bridged_progress);
+    ctx.enumerate(rep, "progress-bridged-burst", super::bridge::BURST_CASES, 2, super::bridge::burst_case, bridged_progress);
 }
 
 // ---------------------------------------------------------------- C05
@@ -377,6 +431,13 @@ pub fn c05(ctx: &Ctx, rep: &mut Report) {
     rep.assumptions = sim_assumptions();
     let sh = Shape { max_streams: 3, max_wops: 8, allow_empty: true, allow_drop: true, complete: false, small_windows: true, max_sched: 400 };
     ctx.prop(rep, "eos", ctx.tier.pick(80_000, 3_000_000), 300, || stream_workload(sh), run_c05);
+    // windows far above the generated ones: W frames written into an idle reader's advertised window, then end-of-stream
+    ctx.enumerate(rep, "eos-large-window", LARGE_WINDOW_CASES, 4, large_window_case, |case| {
+        let mut o = run_c05(case);
+        o.classes.push("window-300-to-70000");
+        o.nontrivial = true;
+        o
+    });
     // the same histories with the connection ending at a generated step (handle dropped on either side, or Close from the peer):
     // data that reached the endpoint must still be readable before end-of-stream
     ctx.prop(
